@@ -5,30 +5,43 @@ import (
 	"sort"
 )
 
-// Sort a list in place. If the list contains a non-comparable object, an error
-// is returned.
+// Sort a list in place. If the list contains a non-comparable object, or two
+// objects that cannot be compared with each other, an error is returned and
+// the list is left as it was.
 func Sort(items []Object) *Error {
+	// The work is done on a copy, so that a comparison that fails half way
+	// through does not leave the caller's items half sorted
+	sorted := make([]Object, len(items))
+	copy(sorted, items)
 	var comparableErr string
-	sort.SliceStable(items, func(a, b int) bool {
-		itemA := items[a]
-		itemB := items[b]
+	sort.SliceStable(sorted, func(a, b int) bool {
+		if comparableErr != "" {
+			// The first failure is the one that is reported
+			return false
+		}
+		itemA := sorted[a]
+		itemB := sorted[b]
 		compA, ok := itemA.(Comparable)
 		if !ok {
 			comparableErr = fmt.Sprintf(
 				"type error: sorted() encountered a non-comparable item (%s)", itemA.Type())
+			return false
 		}
 		if _, ok := itemB.(Comparable); !ok {
 			comparableErr = fmt.Sprintf(
 				"type error: sorted() encountered a non-comparable item (%s)", itemB.Type())
+			return false
 		}
 		result, err := compA.Compare(itemB)
 		if err != nil {
 			comparableErr = err.Error()
+			return false
 		}
 		return result == -1
 	})
 	if comparableErr != "" {
 		return TypeErrorf("%s", comparableErr)
 	}
+	copy(items, sorted)
 	return nil
 }
